@@ -522,6 +522,62 @@ def check_box(P, ctx):
     ctx.floor(rule, 2)
 
 
+def check_finalise_unregisters(P, ctx, rule):
+    """every finalisation site of the collector unit releases a pointer that it took *out of* the registry: either read from
+    entries[i].ptr with that entry struck before the release, or read from the sweep's pending list (whose entries were struck
+    when they were appended). A release of anything else (a parameter, say) leaves the object registered: the next sweep or the
+    teardown finalises it a second time."""
+    n_sites = 0
+    for fname, fn in sorted(P.units['src/GC.c']['functions'].items()):
+        if fn.get('body') is None:
+            continue
+        g = P.cfg(fn)
+        NX = util.Norm(P, fn, expand_locals=True)
+        for n in g.live():
+            if n['expr'] is None:
+                continue
+            for ev in util.expr_events(n['expr'], n):
+                if ev['t'] != 'call' or ev['name'] not in ('dealloc', 'dealloc_raw', 'dealloc_root', 'destruct'):
+                    continue
+                a = ir.top_nocast(ev['args'][0])
+                if ev['name'] != 'destruct' and a[0] == 'call' and ir.callee_name(a) == 'destruct':
+                    continue      # judged at the inner destruct
+                n_sites += 1
+                ctx.fn(fn)
+                x = ir.top_nocast(NX.canon(ev['args'][0]))
+                key = '%s:%s' % (fname, ir.fmt(ir.top_nocast(ev['args'][0]))[:40])
+                why = None
+                if x[0] in ('arrow', 'dot') and x[2] == 'ptr' and ir.top_nocast(x[1])[0] == 'idx' and util.mentions_field(x[1], 'entries'):
+                    idx = ir.top_nocast(x[1])
+                    strikes = []
+                    for m in g.live():
+                        if m['expr'] is None:
+                            continue
+                        for e2 in util.expr_events(m['expr'], m):
+                            if e2['t'] == 'call' and e2['name'] == 'memset' and util.const_int(e2['args'][1]) == 0:
+                                t = ir.top_nocast(NX.canon(e2['args'][0]))
+                                if t[0] == 'un' and t[1] == '&' and ir.top_nocast(t[2]) == idx:
+                                    strikes.append(m)
+                            if e2['t'] == 'write':
+                                t = ir.top_nocast(NX.canon(e2['lhs']))
+                                if t == idx or (t[0] in ('arrow', 'dot') and ir.top_nocast(t[1]) == idx and t[2] in ('ptr', 'hash')
+                                                and e2['rhs'] is not None and ir.is_null(e2['rhs'])):
+                                    strikes.append(m)
+                    ok = any(g.must_pass(n['id'], [s_['id']]) and n['id'] in g.reach_from(s_['id']) for s_ in strikes)
+                    if not ok:
+                        why = 'the entry it was read from is not struck on every path before the release'
+                elif x[0] == 'idx' and util.mentions_field(x[1], 'freelist') and fname == 'GC_Sweep':
+                    ok = True
+                else:
+                    ok = False
+                    why = 'the pointer released (`%s`) was not taken out of the registry in this function' % ir.fmt(x)[:60]
+                ctx.check(ok, rule, key, site(fn, n['line']),
+                          'a finalisation in the collector releases a pointer whose registry entry was struck first (or that comes from the '
+                          'sweep\'s pending list) — an object finalised while still registered is finalised again by the next sweep or at teardown',
+                          [why] if why else None)
+    ctx.floor(rule, 2)
+
+
 def run(ctx, load):
     P = load(UNITS, 'default', WITNESS)
     ctx.stats['units'] = set(UNITS) | {'witness/main_wrapper.c', 'include/Cello.h'}
@@ -532,6 +588,7 @@ def run(ctx, load):
     check_teardown(P, ctx)
     check_box(P, ctx)
     check_registered_before_use(P, ctx)
+    check_finalise_unregisters(P, ctx, 'C06.finalise-unregisters')
     # a stale mark makes the teardown sweep (which does not mark) skip the object: marks must be cleared after every sweep
     from .rules_c01 import check_marks_cleared
     check_marks_cleared(P, ctx, 'C06.teardown-sees-unmarked')
